@@ -121,7 +121,7 @@ Theorem exec_refines c pc :
   (forall a, get c' a = get c'' a) /\ pushes = succs /\ cwf M c'' /\
   Forall (fun x => x < M) succs.
 Proof.
-  intros Hc Hpc. unfold exec, step_core.
+  intros Hc Hpc. unfold exec, step_core, step_core_g. fold (eval_operand M R W).
   set (IR := get c pc). assert (HIR : wf_i M IR) by (apply Hc; assumption).
   pose proof (phase_eq false c pc (i_am IR) (i_a IR) Hc Hpc (proj1 HIR)) as PA.
   destruct (phase M R W wi false c pc (i_am IR) (i_a IR)) as [[[[c1 rpa] wpa] ira] repA].
